@@ -1667,7 +1667,7 @@ class Executor:
             chunk = prefs[i:i + k]
             self.solver.push()
             try:
-                self.solver.set('timeout', 10000)
+                self.solver.set('timeout', 2000)
                 for e in extra:
                     self.solver.add(e)
                 for e in accepted + chunk:
